@@ -133,7 +133,7 @@ CLAIMED['C17'] = dict(
          'sample point |p| <= 10^6 and every view size up to 10^5 x 10^5 (incl. empty and 1-pixel-wide/high): a point reported outside leaves the result '
          'untouched; inside => 1, 2 or 4 source pixels are read, all INSIDE the source view, all among the pixels surrounding the point, every weight in '
          '[0,1]; at integer coordinates the total weight is exactly 1; nearest reads the nearest pixel; detail::cast_channel_fn reproduces an integral accumulator exactly and stays inside the hull of the surrounding values (float/double accumulators, signed and unsigned 8/16/32-bit channels).',
-    note=TRUST + 'Weights summing to 1 for arbitrary points is proved only in the thorough tier (float products); resample_pixels driver, resize_view identity, '
+    note=TRUST + 'Weights summing to 1 for arbitrary (non-integer) points is not proved (sums of float products time out; not registered); resample_pixels driver, resize_view identity, '
          'matrix3x2 algebra and lanczos scaling are not covered. Locator moves and pixel accumulation are the ghost ACCUM model.',
     technique='lemma harnesses with contract clauses over symbolic floats on extracted real bodies (CBMC, loop-free => complete), ghost accumulation monitor with ACCESS preconditions',
     design='4/C17')
